@@ -78,6 +78,7 @@ type relaySend struct {
 	attempt int
 	wire    string // the signed blinded block as it would travel to the relay
 	outcome string
+	foreign string // non-empty: the request carried a block this relay knows nothing of (another slot)
 	retSeq  int    // when the double returned (0 = still pending)
 	retWire string // full signed block returned (outcome block/slow/sync only)
 	ret     *api.VersionedSignedProposal
@@ -121,6 +122,29 @@ type world struct {
 
 	delivered     chan struct{} // closed when a relay double first returns a full block
 	deliveredOnce sync.Once
+
+	// rendezvous: the duty's Propose is held at holdAt (proposal | sign | unblind)
+	// until the harness has run the later duties' Propose calls
+	holdAt   string
+	held     chan struct{} // closed when the hold point is reached
+	heldOnce sync.Once
+	release  chan struct{} // closed by the harness
+}
+
+// hold blocks at the duty's hold point until released (or the context ends, or
+// 15 s have passed: a safety net, never reached).
+func (w *world) hold(ctx context.Context, point string) {
+	if w.holdAt != point {
+		return
+	}
+	w.heldOnce.Do(func() { close(w.held) })
+	tm := time.NewTimer(15 * time.Second)
+	defer tm.Stop()
+	select {
+	case <-w.release:
+	case <-ctx.Done():
+	case <-tm.C:
+	}
 }
 
 // tag makes a signature say which request produced it (duty, account, slot).
@@ -150,7 +174,7 @@ func newAccounts() []*account {
 // newWorld creates the log and the scripts of duty id; the accounts are those of
 // the service (shared by all duties of a history).
 func newWorld(id int, c *Case, accounts []*account) *world {
-	w := &world{id: id, c: c, accounts: accounts, attempts: map[int]int{}, syncCh: make(chan struct{}), delivered: make(chan struct{})}
+	w := &world{id: id, c: c, accounts: accounts, attempts: map[int]int{}, syncCh: make(chan struct{}), delivered: make(chan struct{}), held: make(chan struct{}), release: make(chan struct{})}
 	w.auction = newAuction(w)
 	for _, r := range c.Relays {
 		if r.Kind == "relay" && len(r.Steps) > 0 && r.Steps[0] == "sync" {
@@ -166,9 +190,79 @@ func (w *world) next() int { w.seq++; return w.seq }
 // harness is currently preparing or proposing; the steps of a history run one
 // after the other, so every call is attributed to the duty it was made for.
 // Relay doubles belong to the auction result of one duty and keep its world.
+//
+// While Propose calls overlap (concurrent), the calls made on behalf of a duty are
+// told apart by what they carry: the slot (proposal request, graffiti, auction,
+// block signature - the duties of a history have different slots) or the block
+// signature inside a submitted container (the signer double's signatures name the
+// duty they were returned to).  Something that names no duty is put down to the
+// first duty that is being proposed, where the oracle will object to it.
 type router struct {
-	mu  sync.Mutex
-	cur *world
+	mu         sync.Mutex
+	cur        *world
+	concurrent bool
+	worlds     []*world
+	active     map[*world]bool
+}
+
+func (r *router) setConcurrent(on bool) { r.mu.Lock(); r.concurrent = on; r.mu.Unlock() }
+
+func (r *router) setActive(w *world, on bool) {
+	r.mu.Lock()
+	if r.active == nil {
+		r.active = map[*world]bool{}
+	}
+	if on {
+		r.active[w] = true
+	} else {
+		delete(r.active, w)
+	}
+	r.mu.Unlock()
+}
+
+func (r *router) fallbackLocked() *world {
+	for _, w := range r.worlds {
+		if r.active[w] {
+			return w
+		}
+	}
+	return r.cur
+}
+
+// route returns the world of the duty a call for the given slot belongs to.
+func (r *router) route(slot uint64) *world {
+	r.mu.Lock()
+	defer r.mu.Unlock()
+	if !r.concurrent {
+		return r.cur
+	}
+	for _, w := range r.worlds {
+		if w.c.DutySlot == slot {
+			return w
+		}
+	}
+	return r.fallbackLocked()
+}
+
+// routeSubmission returns the world of the duty a submitted container belongs to.
+func (r *router) routeSubmission(p *api.VersionedSignedProposal) *world {
+	r.mu.Lock()
+	defer r.mu.Unlock()
+	if !r.concurrent {
+		return r.cur
+	}
+	sig, slot, ok := sigAndSlot(p)
+	if ok && sig[0] == 0xb5 && int(sig[1]) < len(r.worlds) {
+		return r.worlds[sig[1]]
+	}
+	if ok {
+		for _, w := range r.worlds {
+			if w.c.DutySlot == slot {
+				return w
+			}
+		}
+	}
+	return r.fallbackLocked()
 }
 
 func (r *router) set(w *world) { r.mu.Lock(); r.cur = w; r.mu.Unlock() }
@@ -236,7 +330,8 @@ func (d signerDouble) SignRANDAOReveal(_ context.Context, acc e2wtypes.Account, 
 }
 
 func (d signerDouble) SignBeaconBlockProposal(ctx context.Context, acc e2wtypes.Account, slot phase0.Slot, index phase0.ValidatorIndex, parent, state, body phase0.Root) (phase0.BLSSignature, error) {
-	w := d.r.world()
+	w := d.r.route(uint64(slot))
+	w.hold(ctx, "sign")
 	w.mu.Lock()
 	defer w.mu.Unlock()
 	sc := signCall{seq: w.next(), account: acc, slot: uint64(slot), index: uint64(index), parent: parent, state: state, body: body}
@@ -266,8 +361,8 @@ func (d signerDouble) SignBlobSidecar(_ context.Context, _ e2wtypes.Account, _ p
 
 type graffitiDouble struct{ r *router }
 
-func (d graffitiDouble) Graffiti(ctx context.Context, _ phase0.Slot, _ phase0.ValidatorIndex) ([]byte, error) {
-	w := d.r.world()
+func (d graffitiDouble) Graffiti(ctx context.Context, slot phase0.Slot, _ phase0.ValidatorIndex) ([]byte, error) {
+	w := d.r.route(uint64(slot))
 	var gc graffitiCall
 	if w.c.GraffitiDelayMs > 0 {
 		tm := time.NewTimer(time.Duration(w.c.GraffitiDelayMs) * time.Millisecond)
@@ -314,7 +409,13 @@ func (d headDouble) ExecutionChainHead(_ context.Context) (phase0.Hash32, uint64
 type nodeDouble struct{ r *router }
 
 func (d nodeDouble) Proposal(ctx context.Context, opts *api.ProposalOpts) (*api.Response[*api.VersionedProposal], error) {
-	w := d.r.world()
+	var w *world
+	if opts != nil {
+		w = d.r.route(uint64(opts.Slot))
+	} else {
+		w = d.r.world()
+	}
+	w.hold(ctx, "proposal")
 	w.mu.Lock()
 	defer w.mu.Unlock()
 	pc := proposalCall{seq: w.next()}
@@ -343,7 +444,7 @@ func (d nodeDouble) Proposal(ctx context.Context, opts *api.ProposalOpts) (*api.
 type submitDouble struct{ r *router }
 
 func (d submitDouble) SubmitProposal(ctx context.Context, p *api.VersionedSignedProposal) error {
-	w := d.r.world()
+	w := d.r.routeSubmission(p)
 	w.mu.Lock()
 	defer w.mu.Unlock()
 	sc := submitCall{seq: w.next(), proposal: p}
@@ -372,7 +473,7 @@ func (d submitDouble) SubmitProposal(ctx context.Context, p *api.VersionedSigned
 type auctionRouter struct{ r *router }
 
 func (d auctionRouter) AuctionBlock(ctx context.Context, slot phase0.Slot, hash phase0.Hash32, pubkey phase0.BLSPubKey) (*blockauctioneer.Results, error) {
-	return d.r.world().auction.AuctionBlock(ctx, slot, hash, pubkey)
+	return d.r.route(uint64(slot)).auction.AuctionBlock(ctx, slot, hash, pubkey)
 }
 
 type auctionDouble struct {
@@ -456,7 +557,13 @@ func (r *relayDouble) UnblindProposal(ctx context.Context, opts *builderapi.Unbl
 	if len(spec.Steps) > 0 {
 		outcome = spec.Steps[min(attempt, len(spec.Steps)-1)]
 	}
-	send := &relaySend{seq: w.next(), relay: r.idx, attempt: attempt, wire: wire(signedBlinded), outcome: outcome}
+	foreign := ""
+	if slot, err := opts.Proposal.Slot(); err == nil && uint64(slot) != w.c.ProposalSlot {
+		// a relay only holds the payload of the block it made a bid for
+		foreign = fmt.Sprintf("slot %d", slot)
+		outcome = "400"
+	}
+	send := &relaySend{seq: w.next(), relay: r.idx, attempt: attempt, wire: wire(signedBlinded), outcome: outcome, foreign: foreign}
 	w.sends = append(w.sends, send)
 	var release chan struct{}
 	if outcome == "sync" {
@@ -473,6 +580,7 @@ func (r *relayDouble) UnblindProposal(ctx context.Context, opts *builderapi.Unbl
 	vals := valsOf(w.c, [96]byte{}, [32]byte{})
 	w.mu.Unlock()
 
+	w.hold(ctx, "unblind")
 	fail := func(err error) (*builderapi.Response[*api.VersionedSignedProposal], error) {
 		w.mu.Lock()
 		send.retSeq = w.next()
